@@ -208,26 +208,31 @@ def edge_templates():
     return out[:MONITOR_ONLY] + tail, mon
 
 
-def fragment_types(res, rnd, n, broken_model, functions=False):
+def fragment_types(res, rnd, n, broken_model, functions=False, stores=False):
     """the checker model (SslModel.Model.Check, what Thm/C01Eval is about) against the implementation: programs of the
     first-order fragment over opaque free variables; same verdict (typed / rejected) and, when typed, the same static type"""
     from gen import fragment as FR
     from vlib import driver_run
-    label = "fragment-fn" if functions else "fragment"
-    if functions:
+    label = "fragment-st" if stores else ("fragment-fn" if functions else "fragment")
+    free = FR.FREE_S if stores else FR.FREE
+    if stores:
+        g = FR.GenS(rnd)
+        bodies = [g.sprogram(rnd.choice([1, 2, 3, 3]), rnd.choice([0.0, 0.05, 0.12])) for _ in range(n)]
+    elif functions:
         g = FR.GenF(rnd)
         bodies = [g.fprogram(rnd.choice([1, 2, 3, 3]), rnd.choice([0.0, 0.05, 0.12])) for _ in range(n)]
     else:
         g = FR.Gen(rnd)
         bodies = [g.program(rnd.choice([1, 2, 2, 3])) for _ in range(n // 4)] + \
             [g.typed_program(rnd.choice([1, 2, 3, 3]), rnd.choice([0.0, 0.05, 0.15])) for _ in range(n - n // 4)]
-    pre = FR.prelude()
+    bodies = [FR.normal(b) for b in bodies]      # control-flow constructs stand in statement positions only
+    pre = FR.prelude_s() if stores else FR.prelude()
     impl = harness_run(["prog\t\t" + esc_field(A.program_src(pre + b)) for b in bodies])
     if broken_model:
         res.streams[label + "-types"] = dict(programs=n, compared=0)
         return
-    binds = " ".join("(%s %s)" % (nm, T.canon(t)) for nm, t, _ in FR.FREE)
-    model = driver_run(["%s (%s) %s" % ("tyoff" if functions else "tyof", binds, A.program_sexp(b)) for b in bodies])
+    binds = " ".join("(%s %s)" % (nm, T.canon(t)) for nm, t, _ in free)
+    model = driver_run(["%s (%s) %s" % ("tyofs" if stores else ("tyoff" if functions else "tyof"), binds, A.program_sexp(b)) for b in bodies])
     rel, relmeta = [], []
     stats = dict(ok=0, ill=0, unsup=0)
     for b, il, ml in zip(bodies, impl, model):
@@ -250,6 +255,16 @@ def fragment_types(res, rnd, n, broken_model, functions=False):
             continue
         accepted = isinstance(si, list) and si and si[0] == "accepted"
         rejected = isinstance(si, list) and si and si[0] == "rejected"
+        if rejected and si[1:] == ["Parsing"]:
+            res.count(label + ":unparsable")
+            res.disagreements_checked += 1
+            res.broken.append("correspondence:generated fragment program does not parse: `%s`" % src[:300])
+            continue
+        if rejected and len(si) == 2 and si[1] in ("IndexOutOfBounds", "NegativeLength", "NegativeExponent", "ZeroDivision", "ZeroModulo", "OverflowShift"):
+            # an operation with a constant operand that must fail when evaluated is reported while parsing
+            # (e.g. `x >> (-1)`, `x / 0`): outside what the checker model describes
+            res.count(label + ":parse-time-exec-error")
+            continue
         if not (accepted or rejected):
             res.violation("implementation crashed / panicked on a fragment program `%s`: %s" % (src[:300], il[:200]),
                           dict(program=A.program_src(pre + b), impl=il), dict(oracle="crash", cls=il[:20]))
@@ -278,6 +293,7 @@ def run(res, tier, seed, broken_model):
     rnd = random.Random(seed)
     fragment_types(res, random.Random(seed + 3), 1500 if tier == "quick" else 40000, broken_model)
     fragment_types(res, random.Random(seed + 4), 1000 if tier == "quick" else 30000, broken_model, functions=True)
+    fragment_types(res, random.Random(seed + 5), 1000 if tier == "quick" else 30000, broken_model, stores=True)
     spec_t, mon_t = edge_templates()
     erecs = P.run_programs(spec_t, broken_model=broken_model)
     mrecs = P.run_programs(mon_t, broken_model=True)
